@@ -17,6 +17,13 @@ expose_data_structures -> populate_from_dict, binary and JSON files) with "every
 with inspect) answers on the result as on the source"; histories that start from HOADmodel output or continue on a loaded
 object; labels and times with colliding hashes; metadata that is not a mapping; refused calls followed by their corrected
 form; times beyond 2^53 with aggregation widths at M, M+-1, (M+1)/2, (M+1)/3.
+Round e: the TYPE of an answer belongs to the answer - the container (list / dict / set / int / bool) and the shape of its
+items (records = (int, tuple)) are fixed per query and option (Impl.T; a deviation is appended to the answer and so
+compared with the map), the model's `Ans.kind` is asked for with `k` lines and compared with the Python type, and a direct
+oracle demands that a windowed listing has the container of the un-windowed one; windows in three groups placed at the
+content (overlapping / missing every record: before, after, between, empty, inverted, far away / touching the first or last
+time), spelled with ints, integral floats, half-lowered floats, +-inf, numpy ints, Fractions; the option product in short
+on every object without records (at birth, after clear() / the removal of the last record).
 """
 import copy as _copy
 import json
@@ -50,7 +57,12 @@ RULE = ("random histories (6-40 public mutating calls; 1-2 object slots for copy
         "every container passed in is overwritten by the caller, full digest, 24 fixed probe queries + 3 random queries, every "
         "returned list/set/dict is overwritten or kept and compared later, returned Hypergraphs are edited; twice per history: every "
         "query with every filter (order -1..4, size 0..5, up_to), all 256 windows on the time grid, time_window x order/size x "
-        "up_to x metadata in full on windows cut at the records' times, snapshots with/without add_all_nodes, aggregate for 15 "
+        "up_to x metadata in full on 3 windows placed at the content (one that overlaps the records, one that misses every record - "
+        "before / after / between / empty / inverted / +-10^30 - one that touches the first or last time; all ~31 of them with "
+        "two option combinations each), windows spelled as ints / integral floats / a-0.5 / +-inf / numpy ints / Fractions "
+        "(30%), the return TYPE of every query (container, record shape, int / bool) compared with the map and with the "
+        "model's answer kind (`k` lines), a 60-query option burst on every object at birth and after every call that leaves it "
+        "without records, snapshots with/without add_all_nodes, aggregate for 15 "
         "widths and malformed widths, 20 questions repeated twice in a row. A history is distinct by its canonical op list; "
         "non-trivial = >=1 accepted removal and >=1 insertion of a record that is or was present.")
 ASSUMPTIONS = ["node labels are mutually comparable and used only through ==, hash, < (mapped to ranks for the model); they are "
@@ -83,6 +95,9 @@ TRUSTED = ["Hypergraph objects returned by aggregate()/subhypergraph() are read 
            "checked by the harness only (same history, same expected content)",
            "getters outside the model (matrices, get_mapping, expose_*, raw tables, str) are compared object against object "
            "only (result of a route vs its source), through a type-tagged canonical form",
+           "the table of Python types per query / option in Impl._query0 (list / dict / set / int / bool, record = (int, tuple)) "
+           "is read off the unchanged code; its link to the model is Ans.kind (k lines: list<->recs, dict<->recsMeta/recsW/counts/hs, "
+           "int<->int, float<->inf)",
            "hoad_links in harness/c03.py re-states the HOADmodel recipe (same draws from random.Random(seed))"]
 BUDGET_S = {"quick": 75, "thorough": 1500}
 
@@ -96,6 +111,7 @@ ALLT = list(range(0, 13))     # abstract time steps; a history multiplies them b
 # 2^61-1 is the modulus of CPython's integer hash: every time k*(2^61-1) hashes to 0;  2^53+1, 10^18, 2^64+3: beyond float64
 TSCALES = [1, 1, 1, 1, 1, 257, 1000, 2 ** 40, 2 ** 53 + 1, 10 ** 18, 2 ** 61 - 1, 2 ** 64 + 3]
 ORDERS = [-1, 0, 1, 2, 3, 4]
+BIG = 10 ** 30              # window bounds beyond every time (passed as they are, or as -inf / inf)
 SIZES = [0, 1, 2, 3, 4, 5]
 
 
@@ -204,6 +220,11 @@ def fresh(v):
 def _np():
     import numpy
     return numpy
+
+
+def is_rec(r):
+    """a record as every listing spells it: the tuple (time, tuple of nodes) with a plain int time"""
+    return type(r) is tuple and len(r) == 2 and type(r[0]) is int and type(r[1]) is tuple
 
 
 def t_py(t):
@@ -987,6 +1008,9 @@ class Impl:
         self.sc = 0
         self.stats = {} if stats is None else stats
         self.used_np = False   # numpy scalars may sit in the object (labels / weights taken from an array that was passed)
+        self.ty = []
+        self.cc = 0
+        self.tmax = 0          # bound on the times of the history (numpy windows only where int64 holds every time)
         self.np_ok = (all(type(v) is int and abs(v) < 2 ** 62 for v in lab) or all(type(v) is float for v in lab)
                       or all(type(v) is str for v in lab))
         _WC[0] = 0
@@ -1343,147 +1367,263 @@ class Impl:
             self.scribble_in()
 
     def win_py(self, win):
-        return [1, 2, 3] if win == "bad" else (fresh(win[0]), fresh(win[1]))
+        """the window object handed to the library: plain fresh ints, or (third item of the window = style) another
+        spelling of the same half-open set of integer times - integral floats, bounds lowered by one half (a - 0.5 <= t
+        iff a <= t, t < b - 0.5 iff t < b for integer t), -inf / inf for the bounds beyond every time, numpy integers,
+        exact fractions.  A style that cannot spell the bounds exactly falls back to plain ints."""
+        if win == "bad":
+            return [1, 2, 3]
+        a, b = win[0], win[1]
+        st = win[2] if len(win) > 2 else 0
+        small = abs(a) < 2 ** 52 and abs(b) < 2 ** 52
+        if st == 1 and small:
+            return (float(a), float(b))
+        if st == 2 and small:
+            return (a - 0.5, b - 0.5)
+        if st == 3:
+            return (-math.inf if a <= -BIG else fresh(a), math.inf if b >= BIG else fresh(b))
+        if st == 4 and small and self.tmax < 2 ** 62:
+            return (_np().int64(a), _np().int64(b))
+        if st == 5:
+            return (Fraction(a), Fraction(b))
+        return (fresh(a), fresh(b))
+
+    def call(self, h, name, *lead, **kw):
+        """one call of a getter with options, spelled as a caller may spell it: keywords (mostly), or - one time in five -
+        positional arguments in the order of the documented signature (SIGS, written down here, not read from the code);
+        a truthy flag is True or 1, a flag that is off is left out, False or 0"""
+        self.cc += 1
+        c = self.cc
+        f = getattr(h, name)
+        for k in FLAGS:
+            if kw.get(k) is True and c % 3 == 1:
+                kw[k] = 1
+            elif k not in kw and any(k == x for x, _ in SIGS[name]) and c % 4 == 2:
+                kw[k] = False if c % 8 == 2 else 0
+        if c % 5 == 0:
+            sig = SIGS[name]
+            last = max([i for i, (k, _) in enumerate(sig) if k in kw] or [-1])
+            return f(*lead, *[kw.get(k, d) for k, d in sig[:last + 1]])
+        return f(*lead, **kw)
+
+    def T(self, r, typ, what, item=None):
+        """the TYPE of an answer belongs to the answer: the container (and the shape of its items) a query returns is
+        fixed by the query and its options, never by the content or by where a window lies (the model's `Ans.kind`)"""
+        if type(r) is not typ and not (isinstance(typ, tuple) and type(r) in typ):
+            self.ty.append("%s is a %s (%r), not a %s" % (what, type(r).__name__, r if not isinstance(r, (list, dict, set, tuple))
+                           else (list(r)[:2] if not isinstance(r, dict) else dict(list(r.items())[:2])),
+                           typ.__name__ if not isinstance(typ, tuple) else "/".join(t.__name__ for t in typ)))
+            return r
+        if item is not None:
+            for x in r:
+                if not item(x):
+                    self.ty.append("%s holds the item %r" % (what, x))
+                    break
+        return r
 
     def _query(self, h, q):
+        self.ty = []
+        out = self._query0(h, q)
+        if self.ty:
+            out = "%s !type: %s" % (out, "; ".join(self.ty[:2]))
+        return out
+
+    def kind_of(self, slot, q):
+        """the kind of the answer in the model's vocabulary (`C03.Ans.kind`), read off the Python object that comes back
+        - asked again on its own so that no instrumentation touches the object that is classified"""
+        h = self.slots[slot]
+        name, a = q[0], q[1:]
+        try:
+            with time_limit(10):
+                if name == "edges":
+                    win, o, s, u, m = a
+                    kw = self.flt(o, s, u)
+                    if win is not None:
+                        kw["time_window"] = self.win_py(win)
+                    if m:
+                        kw["metadata"] = True
+                    r = h.get_edges(**kw)
+                    return {list: "recs", dict: "recsMeta"}.get(type(r), "py:" + type(r).__name__)
+                if name == "weights":
+                    o, s, u, d = a
+                    r = h.get_weights(asdict=True, **self.flt(o, s, u)) if d else h.get_weights(**self.flt(o, s, u))
+                    return {list: "ints", dict: "recsW"}.get(type(r), "py:" + type(r).__name__)
+                if name == "incident":
+                    r = h.get_incident_edges(self.lb(a[0]), **self.flt(a[1], a[2]))
+                    return {list: "recs"}.get(type(r), "py:" + type(r).__name__)
+                if name == "snap":
+                    win = a[0]
+                    r = h.subhypergraph() if win is None else h.subhypergraph(time_window=[1, 2] if win == "bad" else self.win_py(win))
+                    return {dict: "hs"}.get(type(r), "py:" + type(r).__name__)
+                if name == "agg":
+                    w = a[0]
+                    r = h.aggregate({"x": 2.0, "y": "2"}.get(w, w) if isinstance(w, str) else fresh(w))
+                    return {dict: "hs"}.get(type(r), "py:" + type(r).__name__)
+                if name in ("mintime", "maxtime"):
+                    r = h.min_time() if name == "mintime" else h.max_time()
+                    return {int: "int", float: "inf"}.get(type(r), "py:" + type(r).__name__)
+                if name in ("numedges",):
+                    r = h.num_edges(**self.flt(*a))
+                    return {int: "int"}.get(type(r), "py:" + type(r).__name__)
+                if name in ("degseq", "degdist"):
+                    r = (h.degree_sequence if name == "degseq" else h.degree_distribution)(**self.flt(*a))
+                    return {dict: "counts"}.get(type(r), "py:" + type(r).__name__)
+                if name == "timesfor":
+                    r = h.get_times_for_edge(self.E(a[0], "q_timesfor"))
+                    return {list: "ints"}.get(type(r), "py:" + type(r).__name__)
+        except Timeout:
+            return "exc:timeout"
+        except AssertionError:
+            raise
+        except BaseException as e:  # noqa
+            if isinstance(e, KeyboardInterrupt):
+                raise
+            return "rej"
+        finally:
+            self.scribble_in()
+        return None
+
+    def _query0(self, h, q):
         name, a = q[0], q[1:]
         S = lambda o, hold_ok=True: self.S(o, " ".join(str(x) for x in q), hold_ok)
         if name == "nodes":
-            r = h.get_nodes()
+            r = self.T(h.get_nodes(), list, "get_nodes()")
             out = f_nodes(self.R(n) for n in r)
             S(r)
             return out
         if name == "nodesmeta":
-            d = h.get_nodes(metadata=True)
-            d2 = h.get_all_nodes_metadata()
+            d = self.T(h.get_nodes(metadata=True), dict, "get_nodes(metadata=True)")
+            d2 = self.T(h.get_all_nodes_metadata(), dict, "get_all_nodes_metadata()")
             s1 = f_join("%s=%s" % (n, m) for n, m in sorted((self.R(n), f_meta(m)) for n, m in d.items()))
             s2 = f_join("%s=%s" % (n, m) for n, m in sorted((self.R(n), f_meta(m)) for n, m in d2.items()))
             return s1 if s1 == s2 else "get_nodes(metadata)=%s / get_all_nodes_metadata=%s" % (s1, s2)
         if name == "checknode":
-            return "1" if h.check_node(self.lb(a[0])) else "0"
+            return "1" if self.T(h.check_node(self.lb(a[0])), bool, "check_node()") else "0"
         if name == "numnodes":
-            return str(h.num_nodes())
+            return str(self.T(h.num_nodes(), int, "num_nodes()"))
         if name == "edges":
             win, o, s, u, m = a
             kw = self.flt(o, s, u)
             if win is not None:
                 kw["time_window"] = self.win_py(win)
             if m:
-                d = h.get_edges(metadata=True, **kw)
+                d = self.T(self.call(h, "get_edges", metadata=True, **kw), dict, "get_edges(metadata=True, ...)", is_rec)
                 out = f_join(self.frec(r) + "=" + f_meta(d[r]) for r in self.srecs(d))
                 S(d, False)      # its values are the stored metadata dicts
                 return out
-            r = h.get_edges(**kw)
+            r = self.T(self.call(h, "get_edges", **kw), list, "get_edges(...)", is_rec)
             out = f_join(self.frec(x) for x in self.srecs(r))
             S(r)
             return out
         if name == "numedges":
-            return str(h.num_edges(**self.flt(*a)))
+            return str(self.T(self.call(h, "num_edges", **self.flt(*a)), int, "num_edges()"))
         if name == "checkedge":
-            return "1" if h.check_edge(self.E(a[0], "q_checkedge", a[1]), t_py(a[1])) else "0"
+            return "1" if self.T(h.check_edge(self.E(a[0], "q_checkedge", a[1]), t_py(a[1])), bool, "check_edge()") else "0"
         if name == "weight":
             return w_tok(h.get_weight(self.E(a[0], "q_weight", a[1]), t_py(a[1])))
         if name == "weights":
             o, s, u, d = a
             if d:
-                w = h.get_weights(asdict=True, **self.flt(o, s, u))
+                w = self.T(self.call(h, "get_weights", asdict=True, **self.flt(o, s, u)), dict, "get_weights(asdict=True)", is_rec)
                 out = f_join(self.frec(r) + "@" + w_tok(w[r]) for r in self.srecs(w))
                 S(w)
                 return out
-            w = h.get_weights(**self.flt(o, s, u))
+            w = self.T(self.call(h, "get_weights", **self.flt(o, s, u)), list, "get_weights()")
             out = f_ints(int(w_tok(x)) for x in w)
             S(w)
             return out
         if name == "incident":
-            r = h.get_incident_edges(self.lb(a[0]), **self.flt(a[1], a[2]))
+            r = self.T(self.call(h, "get_incident_edges", self.lb(a[0]), **self.flt(a[1], a[2])), list, "get_incident_edges()", is_rec)
             out = f_join(self.frec(x) for x in self.srecs(r))
             S(r)
             return out
         if name == "neighbors":
-            r = h.get_neighbors(self.lb(a[0]), **self.flt(a[1], a[2]))
+            r = self.T(self.call(h, "get_neighbors", self.lb(a[0]), **self.flt(a[1], a[2])), set, "get_neighbors()")
             out = f_nodes(self.R(n) for n in r)
             S(r)
             return out
         if name == "degree":
-            return str(h.degree(self.lb(a[0]), **self.flt(a[1], a[2])))
+            return str(self.T(self.call(h, "degree", self.lb(a[0]), **self.flt(a[1], a[2])), int, "degree()"))
         if name == "degseq":
-            r = h.degree_sequence(**self.flt(*a))
+            r = self.T(self.call(h, "degree_sequence", **self.flt(*a)), dict, "degree_sequence()")
+            self.T(list(r.values()), list, "the values of degree_sequence()", lambda x: type(x) is int)
             out = f_map({self.R(n): d for n, d in r.items()})
             S(r)
             return out
         if name == "degdist":
-            r = h.degree_distribution(**self.flt(*a))
+            r = self.T(self.call(h, "degree_distribution", **self.flt(*a)), dict, "degree_distribution()", lambda x: type(x) is int)
             out = f_map(r)
             S(r)
             return out
         if name == "sizes":
-            r = h.get_sizes()
+            r = self.T(h.get_sizes(), list, "get_sizes()", lambda x: type(x) is int)
             out = f_ints(r)
             S(r)
             return out
         if name == "orders":
-            r = h.get_orders()
+            r = self.T(h.get_orders(), list, "get_orders()", lambda x: type(x) is int)
             out = f_ints(r)
             S(r)
             return out
         if name == "distsizes":
-            r = h.distribution_sizes()
+            r = self.T(h.distribution_sizes(), dict, "distribution_sizes()", lambda x: type(x) is int)
             out = f_map(r)
             S(r)
             return out
         if name == "maxsize":
-            return str(h.max_size())
+            return str(self.T(h.max_size(), int, "max_size()"))
         if name == "maxorder":
-            return str(h.max_order())
+            return str(self.T(h.max_order(), int, "max_order()"))
         if name == "uniform":
-            return "1" if h.is_uniform() else "0"
+            return "1" if self.T(h.is_uniform(), bool, "is_uniform()") else "0"
         if name == "weighted":
-            return "1" if h.is_weighted() else "0"
+            return "1" if self.T(h.is_weighted(), bool, "is_weighted()") else "0"
         if name == "nmeta":
             return f_meta(h.get_node_metadata(self.lb(a[0])))
         if name == "emeta":
             return f_meta(h.get_edge_metadata(self.E(a[0], "q_emeta", a[1]), t_py(a[1])))
         if name == "allemeta":
-            d = h.get_all_edges_metadata()
+            d = self.T(h.get_all_edges_metadata(), dict, "get_all_edges_metadata()")
             return f_join("%s=%s" % (i, f_meta(d[i])) for i in sorted(d))
         if name == "hmeta":
             return f_meta(h.get_hypergraph_metadata())
         if name == "imeta":
             return f_meta(h.get_incidence_metadata(self.E(a[0], "q_imeta", a[1]), t_py(a[1]), self.lb(a[2])))
         if name == "allimeta":
-            d = h.get_all_incidences_metadata()
+            d = self.T(h.get_all_incidences_metadata(), dict, "get_all_incidences_metadata()")
             rows = sorted(((k[0][0], [(isinstance(x, str), x) for x in self.RE(k[0][1])], (isinstance(self.R(k[1]), str), self.R(k[1]))),
                            "%s^%s=%s" % (self.frec(k[0]), self.R(k[1]), f_meta(v))) for k, v in d.items())
             out = f_join(r[1] for r in rows)
             S(d, False)          # a fresh dict whose values are the stored dictionaries
             return out
         if name == "isolated":
-            r = h.isolated_nodes(**self.flt(*a))
+            r = self.T(self.call(h, "isolated_nodes", **self.flt(*a)), list, "isolated_nodes()")
             out = f_nodes(self.R(n) for n in r)
             S(r)
             return out
         if name == "isisolated":
-            return "1" if h.is_isolated(self.lb(a[0]), **self.flt(a[1], a[2])) else "0"
+            return "1" if self.T(self.call(h, "is_isolated", self.lb(a[0]), **self.flt(a[1], a[2])), bool, "is_isolated()") else "0"
         if name == "len":
-            return str(len(h))
+            return str(self.T(len(h), int, "len()"))
         if name == "iter":
             return f_join("%s#%s" % (self.frec(r), i) for r, i in sorted(((r, i) for r, i in h), key=lambda p: p[1]))
         if name == "timesfor":
-            r = h.get_times_for_edge(self.E(a[0], "q_timesfor"))
+            r = self.T(h.get_times_for_edge(self.E(a[0], "q_timesfor")), list, "get_times_for_edge()", lambda x: type(x) is int)
             out = f_ints(r)
             S(r)
             return out
         if name == "mintime":
-            v = h.min_time()
+            v = self.T(h.min_time(), (int, float), "min_time()")
             return "inf" if v == math.inf else str(v)
         if name == "maxtime":
-            v = h.max_time()
+            v = self.T(h.max_time(), (int, float), "max_time()")
             return "-inf" if v == -math.inf else str(v)
         if name == "snap":
             win, alln = a[0], (a[1] if len(a) > 1 else 0)
             kw = {"add_all_nodes": True} if alln else {}
-            res = h.subhypergraph(**kw) if win is None else h.subhypergraph(
-                time_window=[1, 2] if win == "bad" else self.win_py(win), **kw)
+            res = self.call(h, "subhypergraph", **kw) if win is None else self.call(
+                h, "subhypergraph", time_window=[1, 2] if win == "bad" else self.win_py(win), **kw)
+            self.T(res, dict, "subhypergraph()", lambda t: type(t) is int)
             out = f_join(("%d>%s" % (t, self.hobj(res[t], False)) for t in sorted(res)), "|")
             for t in list(res):
                 self.mut_h(res[t], True, h32(t))
@@ -1492,6 +1632,7 @@ class Impl:
         if name == "agg":
             w = a[0]
             res = h.aggregate({"x": 2.0, "y": "2"}.get(w, w) if isinstance(w, str) else fresh(w))
+            self.T(res, dict, "aggregate()", lambda t: type(t) is int)
             out = f_join(("%d>%s" % (i, self.hobj(res[i], True)) for i in sorted(res)), "|")
             for i in list(res):
                 self.mut_h(res[i], False, i)
@@ -1663,6 +1804,16 @@ def q_line(slot, q):
     raise AssertionError(name)
 
 
+FLAGS = ("up_to", "metadata", "asdict", "add_all_nodes")
+_OS = [("order", None), ("size", None)]
+SIGS = {"get_edges": [("time_window", None)] + _OS + [("up_to", False), ("metadata", False)],
+        "num_edges": _OS + [("up_to", False)], "get_weights": _OS + [("up_to", False), ("asdict", False)],
+        "get_incident_edges": _OS, "get_neighbors": _OS, "degree": _OS, "degree_sequence": _OS, "degree_distribution": _OS,
+        "isolated_nodes": [("size", None), ("order", None)], "is_isolated": [("size", None), ("order", None)],
+        "subhypergraph": [("time_window", None), ("add_all_nodes", False)]}
+
+KINDED = ("edges", "weights", "incident", "snap", "agg", "mintime", "maxtime", "numedges", "degseq", "degdist", "timesfor")
+
 DIGEST_QS = [("nodesmeta",), ("edges", None, None, None, 0, 1), ("weights", None, None, 0, 1), ("allemeta",),
              ("iter",), ("hmeta",), ("weighted",), ("allimeta",)]
 
@@ -1677,12 +1828,62 @@ def filters(full):
     return fl
 
 
-def cut_windows(sp, S, rng):
-    """windows placed at the records' own times: everything, all but the last time, all but the first, one time only,
-    an empty window at a record's time, an inverted one"""
+def cut_windows3(sp, S, rng):
+    """windows placed at the records' own times (at 0 and the time scale for an object without records), in three groups:
+    `over` - everything, all but the last time, all but the first, one time only, a prefix;
+    `miss` - windows that select NO record: entirely before the first / after the last time (near and far, up to
+             +-10^30), empty and inverted ones at, between and beyond the records' times, a gap between two times;
+    `edge` - windows that touch the first / last time from either side with one bound"""
     ts = sorted({k[0] for k in sp.recs}) or [0, S]
     lo, hi, mid = ts[0], ts[-1], rng.choice(ts)
-    return [(lo, hi + 1), (lo, hi), (lo + 1, hi + 1), (mid, mid + 1), (mid, mid), (hi + 1, lo), (-1, mid + 1)]
+    over = [(lo, hi + 1), (lo, hi), (lo + 1, hi + 1), (mid, mid + 1), (-1, mid + 1), (-BIG, BIG), (lo, BIG), (-BIG, hi + 1)]
+    miss = [(mid, mid), (hi + 1, lo), (lo - 2, lo), (lo - 1, lo - 1), (hi + 1, hi + 3), (hi + 1, hi + 1), (hi + 1, BIG),
+            (-BIG, lo), (hi + 2, hi + 1), (BIG, -BIG), (hi + S + 1, hi + 3 * S)]
+    gaps = [(x + 1, y) for x, y in zip(ts, ts[1:]) if y > x + 1]
+    if gaps:
+        miss.append(rng.choice(gaps))
+    if not sp.recs:
+        over = []
+        miss += [(lo, hi + 1), (0, 1), (-BIG, BIG), (-1, 14 * S)]
+    edge = [(hi, hi + 1), (lo, lo + 1), (hi, hi), (lo, lo), (lo - 1, lo + 1), (hi, hi + 2), (lo - 3, lo + 1), (hi, BIG),
+            (-BIG, lo + 1), (hi - 1, hi), (lo + 1, lo + 2)]
+    return over, miss, edge
+
+
+def cut_windows(sp, S, rng):
+    over, miss, edge = cut_windows3(sp, S, rng)
+    return over + miss + edge
+
+
+def wstyle(rng, w, p=0.3):
+    """now and then the same window is spelled with other objects than ints (Impl.win_py)"""
+    if w is None or w == "bad" or rng.random() >= p:
+        return w
+    return (w[0], w[1], rng.randint(1, 5))
+
+
+def norec_queries(rng, n, sp, S):
+    """the option product of the listing / counting queries in short, for objects WITHOUT records (fresh, emptied by
+    removals / clear(), nodes only) and whenever else it is asked: windows of every group x metadata x filters, the
+    un-windowed forms, snapshots, aggregate, times, counts - the container that comes back is fixed by the options"""
+    over, miss, edge = cut_windows3(sp, S, rng)
+    ws = [None] + rng.sample(miss, 3) + rng.sample(edge, 1) + rng.sample(over, min(1, len(over)))
+    fl = [(None, None, 0)] + rng.sample(filters(False), 1)
+    qs = []
+    for w in ws:
+        for o, s, u in fl:
+            for m in (1, 0):
+                qs.append(("edges", wstyle(rng, w), o, s, u, m))
+    for w in ws[:3]:
+        qs.append(("snap", wstyle(rng, w), rng.randint(0, 1)))
+    o, s, u = fl[1]
+    qs += [("weights", None, None, 0, 1), ("weights", None, None, 0, 0), ("weights", o, s, u, 1), ("weights", o, s, u, 0),
+           ("numedges", o, s, u), ("numedges", None, None, 0), ("agg", rng.choice(widths(S))), ("mintime",), ("maxtime",),
+           ("sizes",), ("orders",), ("distsizes",), ("maxsize",), ("maxorder",), ("uniform",), ("len",), ("nodes",),
+           ("isolated", None, None), ("isolated", o if not u else None, s if not u else None),
+           ("degseq", None, None), ("degdist", None, None), ("timesfor", list(rng.sample(range(n), min(n, 2)))),
+           ("incident", rng.randrange(n), None, None), ("neighbors", rng.randrange(n), None, None)]
+    return qs
 
 
 def sweep_queries(rng, n, sp, full, S=1):
@@ -1749,20 +1950,33 @@ def sweep_queries(rng, n, sp, full, S=1):
         qs.append(("edges", w, None, None, 0, 0))
     for w in rng.sample(wins, 40 if full else 16):
         o, s, u = rng.choice(fl)
-        qs.append(("edges", w, o, s, u, rng.randint(0, 1)))
-    # the full product of the options of get_edges on windows that cut the records in every way
-    cw = cut_windows(sp, S, rng)
-    for w in (cw if full else rng.sample(cw, 3)):
+        qs.append(("edges", wstyle(rng, w), o, s, u, rng.randint(0, 1)))
+    # the full product of the options of get_edges on windows that cut the records in every way, miss all of them
+    # (before / after / between / empty / inverted), touch the first or last time; every window of the three groups
+    # with metadata on and off and one filter at least
+    over, miss, edge = cut_windows3(sp, S, rng)
+    cw = over + miss + edge
+    k = 3 if full else 1
+    prod = rng.sample(over, min(k, len(over))) + rng.sample(miss, k) + rng.sample(edge, k)
+    for w in prod:
+        w = wstyle(rng, w)
         for o, s, u in fl:
             for m in (0, 1):
                 qs.append(("edges", w, o, s, u, m))
+    for w in cw:
+        if w not in prod:
+            o, s, u = rng.choice(fl)
+            m = rng.randint(0, 1)
+            qs.append(("edges", wstyle(rng, w), o, s, u, m))
+            qs.append(("edges", wstyle(rng, w), None, None, 0, 1 - m))
     qs.append(("edges", "bad", None, None, 0, 0))
     qs.append(("edges", "bad", 1, None, 1, 1))
     for alln in (0, 1):
         qs.append(("snap", None, alln))
         qs.append(("snap", "bad", alln))
-        for w in rng.sample(wins, 30 if full else 8) + rng.sample(cw, 3):
-            qs.append(("snap", w, alln))
+        for w in rng.sample(wins, 30 if full else 8) + (rng.sample(cw, 12) if full else rng.sample(over, min(1, len(over))) + rng.sample(miss, 2)
+                                                           + rng.sample(edge, 1)):
+            qs.append(("snap", wstyle(rng, w), alln))
     cw = [w for w in cut_widths(sp) if w not in widths(S)]
     for w in widths(S) + (cw if full or len(cw) <= 4 else rng.sample(cw, 4)):
         qs.append(("agg", w))
@@ -1804,7 +2018,7 @@ def random_queries(rng, n, sp, k, S=1):
         r = rng.random()
         o, s, u = rng.choice(fl)
         if r < 0.2:
-            qs.append(("edges", rng.choice([None, (rng.choice(g), rng.choice(g))]), o, s, u, rng.randint(0, 1)))
+            qs.append(("edges", wstyle(rng, rng.choice([None, (rng.choice(g), rng.choice(g))])), o, s, u, rng.randint(0, 1)))
         elif r < 0.3:
             qs.append(("numedges", o, s, u))
         elif r < 0.45:
@@ -1852,6 +2066,39 @@ def oracle_derivations(ctx, case, impl, slot, n, rng, full, S=1):
                 if got != want:
                     bad("get_edges(time_window=(%d,%d)) = %s, records with %d <= t < %d are %s" % (a, b, got, a, b, want))
                     break
+            # the windowed listing under every option: the container of the un-windowed listing with the same options
+            # (what comes back is a matter of the options, not of where the window lies), holding exactly the records of
+            # the window that pass the filter - with the metadata view, each with the metadata of the record
+            ts = sorted({k[0] for k in recs}) or [0, S]
+            lo, hi = ts[0], ts[-1]
+            special = [(lo - 2, lo), (hi + 1, hi + 3), (hi + 1, hi + 1), (lo, lo), (hi, hi + 1), (lo, hi + 1), (hi + 1, lo),
+                       (-BIG, BIG), (lo, lo + 1), (hi + 1, BIG), (-BIG, lo), (hi, hi), (lo + 1, hi)]
+            fl1 = [f for f in filters(False) if f[0] is None or f[1] is None]
+            for (a, b) in (special if full else rng.sample(special, 6)) + rng.sample(wins, 4):
+                o, s_, u = rng.choice(fl1)
+                m = rng.random() < 0.6
+                kw = impl.flt(o, s_, u)
+                if m:
+                    kw["metadata"] = True
+                ref = h.get_edges(**kw)
+                got = h.get_edges(time_window=(fresh(a), fresh(b)), **kw)
+                call = "get_edges(time_window=(%d, %d)%s)" % (a, b, "".join(", %s=%r" % kv for kv in sorted(kw.items())))
+                if type(got) is not type(ref):
+                    bad("%s returns a %s %r, the same call without the window returns a %s"
+                        % (call, type(got).__name__, got, type(ref).__name__))
+                    break
+                oo = (s_ - 1) if s_ is not None else o
+                want = sorted(k for k in recs if a <= k[0] < b and (oo is None or (len(k[1]) - 1 <= oo if u else len(k[1]) - 1 == oo)))
+                gotk = sorted((r[0], tuple(impl.RE(r[1]))) for r in got)
+                if gotk != want:
+                    bad("%s lists %s, the records of the window that pass the filter are %s" % (call, gotk, want))
+                    break
+                if m:
+                    wrong = [r for r in got if f_meta(got[r]) != f_meta(h.get_edge_metadata(r[1], r[0]))]
+                    if wrong:
+                        bad("%s gives record %s the metadata %r, get_edge_metadata gives %r"
+                            % (call, wrong[0], got[wrong[0]], h.get_edge_metadata(wrong[0][1], wrong[0][0])))
+                        break
             # snapshots
             for win in [None] + rng.sample(wins, 6):
                 res = h.subhypergraph() if win is None else h.subhypergraph(time_window=win)
@@ -2267,6 +2514,8 @@ class Runner:
         self.ctx, self.drv, self.lab, self.kind, self.S = ctx, drv, lab, kind, tscale
         self.n = len(lab) - 1
         self.impl = Impl(lab, STATE["stats"])
+        self.impl.tmax = 40 * tscale
+        self.kc = 0
         self.ids_off = False     # the model's edge ids went out of step (ids are not part of the property)
         self.last = {}           # slot -> digest taken after the last call on it
         self.specs = {}
@@ -2334,6 +2583,15 @@ class Runner:
                                    % (q_line(slot, q), " add_all_nodes=True" if alln else "", slot, got[:300], want[:300]))
         idq = q[0] in ID_QUERIES and (self.ids_off or STATE["id_only"] >= 2)
         self.model(q_line(slot, q), None if (alln or idq) else got, {"slot": slot, "query": list(q)})
+        # the KIND of the answer (list of records / record -> metadata / record -> weight / numbers / counts / snapshots /
+        # int / inf / rejected) as the model's `Ans.kind` has it for the same line, for every query that is listed in
+        # KINDED: always for the metadata view of a window, one time in eight otherwise
+        if q[0] in KINDED and not self.failed and (self.kc % 8 == 0 or (q[0] == "edges" and q[1] is not None and q[5])):
+            k = self.impl.kind_of(slot, q)
+            if k is not None:
+                self.ctx.count("answer_kinds_compared")
+                self.model("k" + q_line(slot, q)[1:], k, {"slot": slot, "query": list(q), "asked": "kind of the answer"})
+        self.kc += 1
         return got
 
     def digest(self, slot, use_spec=True):
@@ -2552,6 +2810,9 @@ class Runner:
         self.last[slot] = after
 
 
+EMPTIERS = ("clear", "rmedge", "rmedges", "rmnode", "rmnodes", "derive", "copy")
+
+
 def run_history(ctx, drv, rng, full=False, nops=None):
     n = rng.randint(3, 6)
     kind, lab = make_labels(rng, n)
@@ -2585,6 +2846,9 @@ def run_history(ctx, drv, rng, full=False, nops=None):
     nops = nops or rng.randint(6, 40)
     sweep_at = {rng.randrange(nops), nops - 1}
     probes = probe_queries(rng, n, g)
+    if not R.failed and 0 in R.specs:
+        ctx.count("option_bursts_at_birth")
+        R.asks(0, norec_queries(rng, n, R.specs[0], S))      # the object as the constructor leaves it (mostly no records)
     # now and then the object passes through a file / the serialisation helpers / pickle early on, so that most of the
     # history runs on an object that a loader produced
     reload_at = rng.randrange(min(nops, 6)) if rng.random() < 0.12 else -1
@@ -2605,6 +2869,12 @@ def run_history(ctx, drv, rng, full=False, nops=None):
         if R.failed:
             break
         R.asks(slot, probes + random_queries(rng, n, R.specs[slot], 3, S))
+        if not R.failed and slot in R.specs and (rng.random() < 0.03 or (not R.specs[slot].recs and R.ops[-1][0] in EMPTIERS
+                                                              and rng.random() < 0.6)):
+            # an object that has just lost its last record (or never had one and was touched by a removal / clear()),
+            # and now and then any object: the option product in short
+            ctx.count("option_bursts_no_records" if not R.specs[slot].recs else "option_bursts_other")
+            R.asks(slot, norec_queries(rng, n, R.specs[slot], S))
         if i in sweep_at:
             R.sweep(slot, rng, full)
         elif i % 8 == 7:
